@@ -113,7 +113,7 @@ func partCrash(c *vh.Ctx, ch *chainT, idx int) {
 		type point struct{ k, j, batch int }
 		var pts []point
 		if c.Thorough() {
-			for t := 0; t < 2; t++ {
+			for t := 0; t < 1; t++ {
 				k := r.Intn(len(ch.blocks))
 				for j := 0; j < writes[k]; j++ {
 					pts = append(pts, point{k, j, 1 + r.Intn(2)})
